@@ -423,6 +423,7 @@ func checkC02(w *World, r *Report) {
 	checkLockLeaks(w, r, la, "R02.3")
 	// the pool hand-off rule
 	checkR01_4(w, r)
+	checkTemplateTreeNeverReleased(w, r, "R02.5")
 }
 
 func sortedKeys(m map[string]bool) []string {
@@ -783,8 +784,14 @@ func checkSharedCounters(w *World, r *Report, fns []*ssa.Function, reach map[*ss
 			})
 		}
 		instrsOf(fn, func(in ssa.Instruction) {
-			switch in.(type) {
-			case *ssa.Return, *ssa.Panic:
+			switch x := in.(type) {
+			case *ssa.Return:
+				// a function without results that leaves early (evict-if-full helpers) decides
+				// nothing its caller can see
+				if len(x.Results) == 0 {
+					return
+				}
+			case *ssa.Panic:
 			default:
 				return
 			}
